@@ -1,5 +1,130 @@
-(* placeholder while the model is being validated *)
-From AUC Require Import C13.Model C13.Spec.
-Theorem C13_placeholder : True.
-Proof. exact I. Qed.
-Print Assumptions C13_placeholder.
+(* C13 — The server answers searches with what it advertises and UDA prescribes, once.
+   Property theorems only.  The model is the code of /repo with proposed/C13/D7.diff and D8.diff applied. *)
+From Coq Require Import List Bool NArith ZArith Permutation.
+From AUC Require Import Prelude.PyStr Prelude.PyDict C16.Model C08.Model C03.Model C03.Spec C03.Inv
+  C13.Model C13.Spec C13.Strings C13.Table C13.Accept C13.Sched C13.Main C13.Run Gen.Server Gen.Ssdp.
+Import ListNotations.
+Local Open Scope N_scope.
+
+(* For every device tree, server configuration and history of the domain (any tree whose sibling types are
+   distinct, UUIDs of the form uuid:..., types of the form name:version, a description URL the listener's
+   reading accepts, wire-safe strings; any sequence of M-SEARCH datagrams - valid or not, any ST, any MX, each
+   from its own requester, any choice of the random generator -, clock advances and stops), at every step:
+   (1) every search response is one of the messages the table prescribes for its search (ssdp:all: 1 + 2d + k;
+       rootdevice; a UUID; a type of equal or lower version, echoing the requested text; nothing otherwise) and,
+       once the MX window has closed, none is missing;
+   (2) no answer is sent twice, each is sent within [t, t + MX] (at once when MX is absent or not a number);
+   (3) one ssdp:alive is sent per announce interval, going round exactly the ssdp:all table; on stop exactly one
+       ssdp:byebye per entry of that table; nothing else is ever sent;
+   (4) the USN of every message begins with the UUID of the device its type describes;
+   (5) the library's own listener accepts every message as that device at base_uri + device_url
+       (flag computed by running the C03 tracker model on the decoded view), NOTIFYs go to the multicast group;
+   (6) no exception leaves the datagram handler. *)
+Theorem C13_spec_holds : forall i : input, dom i = true -> failures i (model_run i) = [].
+Proof. exact spec_holds. Qed.
+Print Assumptions C13_spec_holds.
+
+(* The response table: for every search target the (ST, USN) pairs answered are exactly the specification's,
+   in order. *)
+Theorem C13_response_table : forall (cfg : config) (st : pystr),
+  cfg_ok cfg = true -> wire_value_ok st = true ->
+  pairs (build_responses cfg st) = spec_answers (c_root cfg) st.
+Proof. exact response_table_closed. Qed.
+Print Assumptions C13_response_table.
+
+(* The version loop of _match_type_versions is "same name ignoring letter case, requested version <= own". *)
+Theorem C13_version_rule : forall (typ st b : pystr) (v : Z),
+  parse_type typ = Some (b, v) -> token_ok typ = true ->
+  match_type_versions typ (alower st) = spec_matches typ st.
+Proof. exact version_rule_closed. Qed.
+Print Assumptions C13_version_rule.
+
+(* What is answered to ssdp:all = what one round of ssdp:alive advertises = what the byebyes revoke. *)
+Theorem C13_adverts_match : forall cfg : config, cfg_ok cfg = true ->
+  Permutation (pairs (build_advertisements cfg nts_alive)) (spec_all (c_root cfg)) /\
+  Permutation (pairs (build_advertisements cfg nts_byebye)) (spec_all (c_root cfg)) /\
+  pairs (build_responses cfg sp_all) = spec_all (c_root cfg).
+Proof. exact adverts_match_closed. Qed.
+Print Assumptions C13_adverts_match.
+
+(* Every message the server can emit (an answer to any search, an alive, a byebye) carries a type that
+   describes a device of the tree, and its USN begins with that device's UUID (which is also what the
+   decoder will put into _udn). *)
+Theorem C13_usn_owner : forall (cfg : config) (m : msg), cfg_ok cfg = true -> emitted cfg m ->
+  exists d, In d (all_devices (c_root cfg)) /\ describes (c_root cfg) d (m_type m) = true /\
+            usn_udn_part (m_usn m) = d_udn d /\ udn_from_usn (m_usn m) = Some (d_udn d) /\
+            starts_with (d_udn d) (m_usn m) = true.
+Proof. exact usn_owner_closed. Qed.
+Print Assumptions C13_usn_owner.
+
+(* A delayed answer is scheduled strictly inside the MX window, whatever the random generator returns within
+   its range; otherwise MX asks for no delay. *)
+Theorem C13_delay_in_window : forall (mx : option pystr) (pick : Z),
+  (mx_delay mx = 0 /\ 0 <= mx_window mx)%Z \/
+  (exists r, randrange rnd_lo (mx_delay mx * rnd_scale + rnd_off) pick = Some r /\
+             (0 < r * 1000 / rnd_div < mx_window mx)%Z).
+Proof. exact delay_in_window_closed. Qed.
+Print Assumptions C13_delay_in_window.
+
+(* Composition with the library's own listener (C03 model).  PREMISE decode_premise: the wire round trip
+   (build_ssdp_packet, then decode_ssdp_packet at time now) of a wire-safe header dict yields a well-formed
+   header map that reads like decoded_view - C01's theorem, not proved here.  Then, for every emitted message,
+   every tracker state satisfying the C03 invariant, every clock reading and every ip_version oracle: its
+   header dict is wire safe; its type describes a device of the tree whose UDN is the USN's uuid part; a
+   response / ssdp:alive is a valid sighting (C03.Spec.sighting) of exactly that device at that time, and after
+   the search / advertisement listener processed it the tracker knows the device at base_uri + device_url;
+   an ssdp:byebye is a byebye of that device (C03.Spec.byebye_of) and the tracker forgets it. *)
+Theorem C13_self_accepted :
+  forall (dec : pystr -> list (pystr * pystr) -> Z -> hdrs), decode_premise dec ->
+  forall (cfg : config) (m : msg), cfg_ok cfg = true -> emitted cfg m ->
+  forall (ipver : pystr -> option N) (now : Z) (t : tracker), (0 <= now <= DT_MAX)%Z -> C03.Inv.Inv t ->
+  let D := decoded_view (msg_items cfg m) now in
+  let h := dec (msg_line m) (msg_items cfg m) now in
+  let u := usn_udn_part (m_usn m) in
+  let loc := location_of_cfg cfg in
+  headers_wire_ok (msg_items cfg m) = true /\
+  (exists d, In d (all_devices (c_root cfg)) /\ describes (c_root cfg) d (m_type m) = true /\ d_udn d = u) /\
+  match m_kind m with
+  | MResponse =>
+      sighting (Srch D) = Some (u, now, spec_valid_to D) /\
+      exists dv, In (u, dv) (devices (fst (fst (on_srch ipver [] t h)))) /\
+                 dget str_eqb (d_locs dv) loc = Some (spec_valid_to D)
+  | MNotify =>
+      if str_eqb (m_nts m) nts_byebye
+      then byebye_of (Adv D) = Some u /\ devices (fst (fst (on_adv ipver t h))) = sdel (devices t) u
+      else sighting (Adv D) = Some (u, now, spec_valid_to D) /\
+           exists dv, In (u, dv) (devices (fst (fst (on_adv ipver t h)))) /\
+                      dget str_eqb (d_locs dv) loc = Some (spec_valid_to D)
+  end.
+Proof. exact self_accepted_closed. Qed.
+Print Assumptions C13_self_accepted.
+
+(* The premise is satisfiable: the header map built from decoded_view itself satisfies it. *)
+Theorem C13_decode_premise_inhabited : decode_premise model_dec.
+Proof. exact model_dec_premise. Qed.
+Print Assumptions C13_decode_premise_inhabited.
+
+(* ------------------------------------------------------------------ non-vacuity *)
+Definition ex_emb : dev :=
+  Dev [117;117;105;100;58;101] [117;114;110;58;97;58;100;58;69;58;50]          (* uuid:e  urn:a:d:E:2 *)
+      [[117;114;110;58;97;58;115;58;83;58;51]] [].                               (* urn:a:s:S:3 *)
+Definition ex_root : dev :=
+  Dev [117;117;105;100;58;114] [117;114;110;58;97;58;100;58;82;58;49] [] [ex_emb].   (* uuid:r  urn:a:d:R:1 *)
+Definition ex_cfg : config :=
+  {| c_root := ex_root; c_base := [104;116;116;112;58;47;47;49;46;50;46;51;46;52]; c_url := [47;100];
+     c_boot := 1; c_cfgid := 1; c_always_root := false; c_target_ip := [50;51;57;46;49]; c_target_port := 1900;
+     c_target_v6 := false; c_date := [100] |}.
+(* a search for the embedded device's type at a lower version and different letter case, MX 2; a search for
+   everything; two announce intervals (the delayed answer and two ssdp:alive); stop *)
+Definition ex_ops : list sop :=
+  [OSearch search_line (Some ssdp_discover) (Some [85;82;78;58;65;58;68;58;69;58;49]) (Some [50]) 1 12345;
+   OSearch search_line (Some ssdp_discover) (Some sp_all) None 2 0;
+   OAdvance (2 * announce_interval_ms); OStop].
+Example C13_domain_inhabited :
+  dom (ex_cfg, ex_ops) = true /\
+  map (fun ob => length (o_sent ob)) (model_run (ex_cfg, ex_ops)) = [1; 0; 6; 3; 6]%nat /\
+  map (fun g => (g_time g, g_type g, g_usn g, g_dest g))
+      (filter (fun g => g_dest g =? 1) (flat_map o_sent (model_run (ex_cfg, ex_ops)))) =
+    [(895%Z, [85;82;78;58;65;58;68;58;69;58;49],
+      [117;117;105;100;58;101;58;58;117;114;110;58;97;58;100;58;69;58;50], 1)].
+Proof. vm_compute. repeat split; reflexivity. Qed.
